@@ -70,6 +70,17 @@ def run_case(case):
             lon0 = float(rng.choice([-179.99, 179.99, 180.0, -180.0, 179.9, 0.0, 90.0, -90.0]))
             brg = float(rng.choice([0, 90, 180, 270, 45, 135, 225, 315]))
             dist = float(rng.choice([0.0, 0.5, 5000.0, 4999.0]))
+        elif j % 8 == 5:  # reference points a few metres to a kilometre beside the Greenwich meridian / the antimeridian, offsets crossing it
+            lat0 = float(rng.uniform(-60, 60))
+            eps_ = float(10 ** rng.uniform(-6, -2))
+            lon0 = float(rng.choice([eps_, -eps_, 180.0 - eps_, -180.0 + eps_]))
+            brg = float(rng.choice([90.0, 270.0, rng.uniform(0, 360)]))
+            dist = float(10 ** rng.uniform(1.0, math.log10(5000.0)))
+        elif j % 8 == 6:  # offsets of centimetres to tens of metres (a tower next to the reference point), any longitude
+            lat0 = float(rng.uniform(-60, 60))
+            lon0 = float(rng.choice([rng.uniform(-180, 180), rng.choice([-1, 1]) * rng.uniform(120, 179.9)]))
+            brg = float(rng.uniform(0, 360))
+            dist = float(10 ** rng.uniform(-2, 2))
         else:
             lat0 = float(rng.uniform(-60, 60))
             lon0 = float(rng.uniform(-180, 180))
@@ -170,15 +181,21 @@ def run_case(case):
     for k, (la0, lo0, x, y, dist, brg) in enumerate(pts[:6]):
         la, lo = xy_to_latlon(x, y, pts[0][0], pts[0][1])
         tw.append({"name": f"T{k}", "lat": float(la), "lon": float(lo), "z_m": 3.0})
+    for k, (x, y) in enumerate([(12.0, 25.0), (0.3, -0.8), (-40.0, 3.0)]):  # towers a few metres from the reference point
+        la, lo = xy_to_latlon(x, y, pts[0][0], pts[0][1])
+        tw.append({"name": f"N{k}", "lat": float(la), "lon": float(lo), "z_m": 2.0, "_xy": (x, y)})
     cfg = parse_config_dict({
         "domain": {"nx": 8, "ny": 8, "xmax": 80.0, "ymax": 80.0, "nz": 4, "ref_lat": pts[0][0], "ref_lon": pts[0][1]},
-        "towers": tw, "met": {"ustar": 0.3},
+        "towers": [{k_: v_ for k_, v_ in t_.items() if not k_.startswith("_")} for t_ in tw], "met": {"ustar": 0.3},
     })
     for t, spec in zip(cfg.towers, tw):
         counters["config_towers"] += 1
         ex, ey = latlon_to_xy(spec["lat"], spec["lon"], pts[0][0], pts[0][1])
         if (t.x, t.y) != (ex, ey) or t.name != spec["name"]:
             viol.append({"what": "config_tower_xy", "tower": spec, "got": (t.x, t.y), "expected": (ex, ey)})
+        if "_xy" in spec and math.hypot(t.x - spec["_xy"][0], t.y - spec["_xy"][1]) > 1e-6:
+            viol.append({"what": "config_tower_xy", "tower": spec, "got": (t.x, t.y), "expected": spec["_xy"], "ref": (pts[0][0], pts[0][1]),
+                         "note": "tower a few metres from the reference point"})
 
     # the same tower objects under a different reference origin (dataclasses.replace re-runs the conversion)
     import dataclasses
